@@ -326,3 +326,57 @@ pub fn batch_reverse_ans_u8_u16_p3() {
     let (db, ds) = d.into_raw_parts(); let (eb, es_) = e.into_raw_parts();
     assert!(ds == es_ && db == eb, "C01: encode_iid_symbols_reverse differs from the reversed per-symbol loop");
 }
+
+/// C08 / C01: the thin re-packaging functions of the ANS coder (Vec backend): `as_decoder` /
+/// `as_seekable_decoder` show exactly the encoder's (words, state) and leave it untouched;
+/// `into_decoder` keeps (words, state); `from_reversed_compressed` of the reversed export is the
+/// coder again.
+#[cfg_attr(kani, kani::proof)]
+#[cfg_attr(kani, kani::unwind(8))]
+pub fn views_u8_u16() {
+    use constriction::backends::ReadWords;
+    use constriction::Stack;
+    let n: usize = any(); assume(n <= 2);
+    let w = any_arr::<u8, 2>();
+    let state: u16 = any();
+    assume(if n == 0 { true } else { state >= 1 << 8 });
+    let mut v: Vec<u8> = Vec::with_capacity(4);
+    let mut i = 0; while i < n { v.push(w[i]); i += 1; }
+    let c = AnsCoder::<u8, u16, Vec<u8>>::from_raw_parts(v, state);
+    let grp = group(4);
+    if grp == 0 {
+        let d = c.as_decoder();
+        assert!(d.state() == state, "C08: temporary decoder starts from a different state than the encoder");
+        let (mut b, _) = d.into_raw_parts();
+        let mut i = n; while i > 0 { assert!(matches!(ReadWords::<u8, Stack>::read(&mut b), Ok(Some(x)) if x == w[i - 1]), "C08: temporary decoder sees different words than the encoder holds"); i -= 1; }
+        assert!(matches!(ReadWords::<u8, Stack>::read(&mut b), Ok(None)), "C08: temporary decoder sees more words than the encoder holds");
+    } else if grp == 1 {
+        let d = c.as_seekable_decoder();
+        assert!(d.state() == state, "C08/C07: seekable decoder starts from a different state than the encoder");
+        let (mut b, _) = d.into_raw_parts();
+        let mut i = n; while i > 0 { assert!(matches!(ReadWords::<u8, Stack>::read(&mut b), Ok(Some(x)) if x == w[i - 1]), "C08/C07: seekable decoder sees different words than the encoder holds"); i -= 1; }
+        assert!(matches!(ReadWords::<u8, Stack>::read(&mut b), Ok(None)), "C08/C07: seekable decoder sees more words than the encoder holds");
+    } else if grp == 2 {
+        let d = c.clone().into_decoder();
+        assert!(d.state() == state, "C01: into_decoder changed the state");
+        let (mut b, _) = d.into_raw_parts();
+        let mut i = n; while i > 0 { assert!(matches!(ReadWords::<u8, Stack>::read(&mut b), Ok(Some(x)) if x == w[i - 1]), "C01: into_decoder changed the words"); i -= 1; }
+    } else {
+        if n > 0 || state != 0 {
+            let words = match c.clone().into_compressed() { Ok(w) => w, Err(_) => return };
+            let mut rev: Vec<u8> = Vec::with_capacity(4);
+            let mut i = words.len(); while i > 0 { rev.push(words[i - 1]); i -= 1; }
+            match AnsCoder::<u8, u16, _>::from_reversed_compressed(rev) {
+                Ok(r) => {
+                    assert!(r.state() == state, "C01: from_reversed_compressed of the reversed export has a different state");
+                    let (mut b, _) = r.into_raw_parts();
+                    let mut i = n; while i > 0 { assert!(matches!(ReadWords::<u8, Stack>::read(&mut b), Ok(Some(x)) if x == w[i - 1]), "C01: from_reversed_compressed of the reversed export has different words"); i -= 1; }
+                }
+                Err(_) => assert!(false, "C01: from_reversed_compressed refused the reversed export"),
+            }
+        }
+    }
+    // the encoder itself is untouched by all of the above (they take &self or a clone)
+    let (b0, s0) = c.into_raw_parts();
+    assert!(s0 == state && b0.len() == n, "C08: inspecting changed the encoder");
+}
